@@ -221,7 +221,7 @@ Definition linearizable_pending {Ob} (sstep : Ob -> nat -> op -> option (Ob * na
   linearizable sstep o0 (drop_pending h []).
 
 (* ------------------------------------------------------------------ Pool (history monitor)
-   events: KInv 0 b=now (Get) | KRet 0 a=id b=now | KInv 1 a=id b=now (Put) | KRet 1 b=now
+   events: KInv 0 b=now (Get) | KRet 0 a=id b=now | KInv 1 a=id b=now (Put) | KRet 1 b=now | KInv 2 / KRet 2 (Put(nil))
            | KBegin 3 c=2 (the create callback starts) | KBegin 3 a=id c=0 (it returns resource id)
            | KBegin 3 c=1 (it panicked, no resource) | KEnd 3 a=id (destroy callback; c=1: it panicked)
            | KRet 0 c=2: Get ended with a callback's panic.
@@ -258,6 +258,7 @@ Definition pool_mon_step (limit maxage : nat) (m : pool_mon) (e : ev) : option p
       | Some (3, _) | Some (4, _) => Some (mkpm (pm_live m - 1) (aset Nat.eqb (e_a e) (5, 0) st) (pm_getinv m) (pm_pput m) (pm_inprog m))
       | _ => None
       end
+  | KInv, 2 | KRet, 2 => Some m     (* Put(nil): not a resource, nothing changes *)
   | KInv, 0 => Some (mkpm (pm_live m) st (aset Nat.eqb t (e_b e) (pm_getinv m)) (pm_pput m) (pm_inprog m))
   | KRet, 0 =>
       if Nat.eqb (e_c e) 2 then Some m else   (* Get was unwound by a panicking callback: nothing handed out *)
